@@ -532,28 +532,46 @@ namespace chaiscript {
         }
 #endif
 
-        if (loc == 0) {
-          auto &stack = get_stack_data(t_holder);
+        auto &stack = get_stack_data(t_holder);
 
-          // Is it in the stack?
-          for (auto stack_elem = stack.rbegin(); stack_elem != stack.rend(); ++stack_elem) {
-            for (auto s = stack_elem->begin(); s != stack_elem->end(); ++s) {
-              if (s->first == name) {
-                t_loc = static_cast<uint_fast32_t>(std::distance(stack.rbegin(), stack_elem) << 16)
-                    | static_cast<uint_fast32_t>(std::distance(stack_elem->begin(), s)) | static_cast<uint_fast32_t>(Loc::located)
-                    | static_cast<uint_fast32_t>(Loc::is_local);
-                return s->second;
+        if ((loc & static_cast<uint_fast32_t>(Loc::is_local)) != 0u) {
+          // The node remembers where it found a local last time. The same node can be evaluated under a
+          // different arrangement of scopes (eval() declaring locals, conditional declarations, a lambda
+          // called with an extra 'this' scope, ...), so the position is only a hint: it must still hold
+          // this name, and no scope nearer than it may declare the name by now.
+          const auto depth = (loc & static_cast<uint_fast32_t>(Loc::stack_mask)) >> 16;
+          const auto index = loc & static_cast<uint_fast32_t>(Loc::loc_mask);
+          if (depth < stack.size()) {
+            auto &scope = stack[stack.size() - 1 - depth];
+            if (index < scope.size() && (scope.begin() + static_cast<std::ptrdiff_t>(index))->first == name) {
+              bool shadowed = false;
+              for (uint_fast32_t nearer = 0; nearer < depth && !shadowed; ++nearer) {
+                const auto &nearer_scope = stack[stack.size() - 1 - nearer];
+                shadowed = nearer_scope.find(name) != nearer_scope.end();
+              }
+              if (!shadowed) {
+                return scope.at_index(index);
               }
             }
           }
-
-          t_loc = static_cast<uint_fast32_t>(Loc::located);
-        } else if ((loc & static_cast<uint_fast32_t>(Loc::is_local)) != 0u) {
-          auto &stack = get_stack_data(t_holder);
-
-          return stack[stack.size() - 1 - ((loc & static_cast<uint_fast32_t>(Loc::stack_mask)) >> 16)].at_index(
-              loc & static_cast<uint_fast32_t>(Loc::loc_mask));
+          loc = 0;
         }
+
+        // Is it in the stack? "It was not a local last time" cannot be cached either: a local of this
+        // name may have been declared since.
+        for (auto stack_elem = stack.rbegin(); stack_elem != stack.rend(); ++stack_elem) {
+          for (auto s = stack_elem->begin(); s != stack_elem->end(); ++s) {
+            if (s->first == name) {
+              t_loc = static_cast<uint_fast32_t>(std::distance(stack.rbegin(), stack_elem) << 16)
+                  | static_cast<uint_fast32_t>(std::distance(stack_elem->begin(), s)) | static_cast<uint_fast32_t>(Loc::located)
+                  | static_cast<uint_fast32_t>(Loc::is_local);
+              return s->second;
+            }
+          }
+        }
+
+        // what is left of the hint is at most the position of a function object
+        loc &= static_cast<uint_fast32_t>(Loc::loc_mask) | static_cast<uint_fast32_t>(Loc::stack_mask);
 
         // Is the value we are looking for a global or function?
         chaiscript::detail::threading::shared_lock<chaiscript::detail::threading::shared_mutex> l(m_mutex);
